@@ -16,11 +16,15 @@ use rb_harness::driver::ask;
 use rb_harness::json::J;
 use rb_harness::report::{Failure, Kind, Report};
 use rb_harness::rng::Rng;
-use rusty_pc::and::{KeepLeftCombiner, KeepRightCombiner, TupleCombiner};
+use std::rc::Rc;
+
+use rusty_pc::and::{
+    IgnoringBothCombiner, KeepLeftCombiner, KeepRightCombiner, StringCombiner, TupleCombiner, VecCombiner,
+};
 use rusty_pc::boxed::BoxedParser;
-use rusty_pc::many::VecManyCombiner;
+use rusty_pc::many::{IgnoringManyCombiner, StringManyCombiner, VecManyCombiner};
 use rusty_pc::many_ctx::ManyCtxParser;
-use rusty_pc::text::many_str;
+use rusty_pc::text::{many_str, many_str_with_combiner, one_char_to_str};
 use rusty_pc::*;
 
 // ------------------------------------------------------------------------------------------------
@@ -30,7 +34,12 @@ use rusty_pc::*;
 thread_local! {
     static TICKS: Cell<u64> = const { Cell::new(0) };
     static MAX_TICKS: Cell<u64> = const { Cell::new(0) };
+    static DEPTH: Cell<u32> = const { Cell::new(0) };
+    static MAX_DEPTH_SEEN: Cell<u32> = const { Cell::new(0) };
 }
+/// nesting bound of `lazy` descents: a run that ends never has the same (table entry, position) twice on its
+/// descent path, so it nests at most `entries * (len + 1)` (<= 3 * 7) of them; more is unbounded recursion
+const DEPTH_BUDGET: u32 = 64;
 const TICK_BUDGET: u64 = 4_000;
 const HANG_MSG: &str = "c20-step-budget-exhausted";
 
@@ -116,6 +125,9 @@ enum V {
     List(Vec<V>),
     None,
     Some(Box<V>),
+    Str(String),
+    Tok(u8, String),
+    Num(u8),
 }
 
 impl Default for V {
@@ -152,12 +164,77 @@ fn val_str(v: &V, out: &mut String) {
             val_str(x, out);
             out.push(')');
         }
+        V::Str(s) => {
+            out.push_str("(str");
+            for c in s.chars() {
+                out.push_str(&format!(" {}", (c as u8).wrapping_sub(b'a')));
+            }
+            out.push(')');
+        }
+        V::Tok(k, s) => {
+            out.push_str(&format!("(tok {}", k));
+            for c in s.chars() {
+                out.push_str(&format!(" {}", (c as u8).wrapping_sub(b'a')));
+            }
+            out.push(')');
+        }
+        V::Num(n) => out.push_str(&format!("(num {})", n)),
+    }
+}
+
+// projections of the one value type onto the argument types of the typed combiners (`RbModel.Pc.Val.as*`)
+fn as_char(v: &V) -> char {
+    match v {
+        V::Sym(k) => chr(*k),
+        _ => 'z',
+    }
+}
+fn as_str(v: &V) -> String {
+    match v {
+        V::Str(s) => s.clone(),
+        V::Sym(k) => chr(*k).to_string(),
+        V::Tok(_, t) => t.clone(),
+        _ => String::new(),
+    }
+}
+fn as_text(v: &V) -> String {
+    let s = as_str(v);
+    if s.is_empty() { "z".to_string() } else { s }
+}
+fn as_opt_str(v: &V) -> Option<String> {
+    match v {
+        V::None => None,
+        V::Some(x) => Some(as_str(x)),
+        x => Some(as_str(x)),
+    }
+}
+fn as_opt_char(v: &V) -> Option<char> {
+    match v {
+        V::None => None,
+        V::Some(x) => Some(as_char(x)),
+        x => Some(as_char(x)),
+    }
+}
+fn as_list(v: &V) -> Vec<V> {
+    match v {
+        V::List(l) => l.clone(),
+        x => vec![x.clone()],
+    }
+}
+fn as_char_vec(v: &V) -> Vec<char> {
+    as_list(v).iter().map(as_char).collect()
+}
+fn as_tok(v: &V) -> Token {
+    match v {
+        V::Tok(k, t) => Token::new(*k, t.clone()),
+        x => Token::new(0, as_text(x)),
     }
 }
 
 fn vsize(v: &V) -> u64 {
     match v {
-        V::Unit | V::Sym(_) | V::None => 1,
+        V::Unit | V::Sym(_) | V::None | V::Num(_) => 1,
+        V::Str(s) | V::Tok(_, s) => 1 + s.len() as u64,
         V::Pair(a, b) => 1 + vsize(a) + vsize(b),
         V::List(l) => 1 + l.iter().map(vsize).sum::<u64>(),
         V::Some(x) => 1 + vsize(x),
@@ -216,6 +293,44 @@ enum Cmb {
     Tuple,
     Left,
     Right,
+    Ignore,
+    Swap,
+    Vec2,
+    VecCat,
+    StrCat,
+    OptStrCat,
+    Chars,
+    CharOpt,
+    CharVec,
+}
+const ALL_CMB: [Cmb; 12] = [
+    Cmb::Tuple,
+    Cmb::Left,
+    Cmb::Right,
+    Cmb::Ignore,
+    Cmb::Swap,
+    Cmb::Vec2,
+    Cmb::VecCat,
+    Cmb::StrCat,
+    Cmb::OptStrCat,
+    Cmb::Chars,
+    Cmb::CharOpt,
+    Cmb::CharVec,
+];
+#[derive(Clone, Copy, Debug, PartialEq)]
+enum MCmb {
+    Vec,
+    Str,
+    TokStr,
+    Ignore,
+}
+fn mcmb_s(m: MCmb) -> &'static str {
+    match m {
+        MCmb::Vec => "vec",
+        MCmb::Str => "str",
+        MCmb::TokStr => "tokStr",
+        MCmb::Ignore => "ignore",
+    }
 }
 #[derive(Clone, Debug, PartialEq)]
 enum Pred {
@@ -227,6 +342,36 @@ enum MapFn {
     Unit,
     Wrap,
     Dup,
+    CharStr,
+    MkTok(u8),
+    TokKind,
+    TokText,
+    TokChar,
+    TokShow,
+}
+const ALL_MAPFN: [MapFn; 9] = [
+    MapFn::Unit,
+    MapFn::Wrap,
+    MapFn::Dup,
+    MapFn::CharStr,
+    MapFn::MkTok(7),
+    MapFn::TokKind,
+    MapFn::TokText,
+    MapFn::TokChar,
+    MapFn::TokShow,
+];
+fn mapfn_s(f: MapFn) -> String {
+    match f {
+        MapFn::Unit => "unit".into(),
+        MapFn::Wrap => "wrap".into(),
+        MapFn::Dup => "dup".into(),
+        MapFn::CharStr => "charStr".into(),
+        MapFn::MkTok(k) => format!("(mkTok {})", k),
+        MapFn::TokKind => "tokKind".into(),
+        MapFn::TokText => "tokText".into(),
+        MapFn::TokChar => "tokChar".into(),
+        MapFn::TokShow => "tokShow".into(),
+    }
 }
 #[derive(Clone, Copy, Debug, PartialEq)]
 enum ErrFn {
@@ -246,6 +391,9 @@ enum X {
     EatSoft,
     Pure,
     ManyStr(u8),
+    OneStr(u8),              // text/strings.rs one_char_to_str
+    ManyStrWith(MCmb, u8),   // text/strings.rs many_str_with_combiner (not typable with TokStr)
+    ManyC(MCmb, bool, Box<X>), // many / many_allow_none with a many-combiner
     And(Cmb, Box<X>, Box<X>),
     Or2(Box<X>, Box<X>),
     Or3(Box<X>, Box<X>, Box<X>),
@@ -280,6 +428,15 @@ fn cmb_s(c: Cmb) -> &'static str {
         Cmb::Tuple => "tuple",
         Cmb::Left => "left",
         Cmb::Right => "right",
+        Cmb::Ignore => "ignore",
+        Cmb::Swap => "swap",
+        Cmb::Vec2 => "vec2",
+        Cmb::VecCat => "vecCat",
+        Cmb::StrCat => "strCat",
+        Cmb::OptStrCat => "optStrCat",
+        Cmb::Chars => "chars",
+        Cmb::CharOpt => "charOpt",
+        Cmb::CharVec => "charVec",
     }
 }
 fn set_syms(bits: u8) -> Vec<u8> {
@@ -298,6 +455,9 @@ impl X {
             X::EatSoft => "eatSoft",
             X::Pure => "pure",
             X::ManyStr(_) => "manyStr",
+            X::OneStr(_) => "oneStr",
+            X::ManyStrWith(..) => "manyStrWith",
+            X::ManyC(..) => "manyC",
             X::And(..) => "and",
             X::Or2(..) => "or2",
             X::Or3(..) => "or3",
@@ -339,6 +499,9 @@ impl X {
             X::EatSoft => "eatSoft".into(),
             X::Pure => "pure".into(),
             X::ManyStr(k) => format!("(manyStr {})", k),
+            X::OneStr(k) => format!("(oneStr {})", k),
+            X::ManyStrWith(m, k) => format!("(manyStrWith {} {})", mcmb_s(*m), k),
+            X::ManyC(m, an, e) => format!("(manyC {} {} {})", mcmb_s(*m), tf(*an), e.sx()),
             X::And(c, l, r) => format!("(and {} {} {})", cmb_s(*c), l.sx(), r.sx()),
             X::Or2(a, b) => format!("(or2 {} {})", a.sx(), b.sx()),
             X::Or3(a, b, c) => format!("(or3 {} {} {})", a.sx(), b.sx(), c.sx()),
@@ -367,15 +530,7 @@ impl X {
                 ErrFn::RecoverIf(k) => format!("(andThenErr (recoverIf {}) {})", k, e.sx()),
                 ErrFn::Replace(c, f) => format!("(andThenErr (replace {} {}) {})", c, tf(*f), e.sx()),
             },
-            X::Map(f, e) => format!(
-                "(map {} {})",
-                match f {
-                    MapFn::Unit => "unit",
-                    MapFn::Wrap => "wrap",
-                    MapFn::Dup => "dup",
-                },
-                e.sx()
-            ),
+            X::Map(f, e) => format!("(map {} {})", mapfn_s(*f), e.sx()),
             X::ToFatal(e) => format!("(toFatal {})", e.sx()),
             X::WithSoftErr(c, f, e) => format!("(withSoftErr {} {} {})", c, tf(*f), e.sx()),
             X::MapFatalErr(c, e) => format!("(mapFatalErr {} {})", c, e.sx()),
@@ -388,12 +543,12 @@ impl X {
     fn children(&self) -> Vec<&X> {
         match self {
             X::Any | X::PeekAny | X::One(_) | X::OneOf(_) | X::FailSoft(_) | X::FailFatal(_) | X::EatSoft | X::Pure
-            | X::ManyStr(_) => vec![],
+            | X::ManyStr(_) | X::OneStr(_) | X::ManyStrWith(..) => vec![],
             X::And(_, a, b) | X::Or2(a, b) | X::OrNoBox(a, b) | X::Delimited(_, _, a, b) | X::ThenWith(_, a, b)
             | X::Flatten(a, b) | X::Iif(_, a, b) => vec![a, b],
             X::Or3(a, b, c) | X::Surround(_, a, b, c) => vec![a, b, c],
-            X::Many(_, e) | X::ManyCtx(_, e) | X::Filter(_, e) | X::FilterMap(_, e) | X::Peek(e) | X::ToOption(e)
-            | X::OrDefault(e) | X::AndThen(_, _, _, e) | X::AndThenErr(_, e) | X::Map(_, e) | X::ToFatal(e)
+            X::Many(_, e) | X::ManyC(_, _, e) | X::ManyCtx(_, e) | X::Filter(_, e) | X::FilterMap(_, e) | X::Peek(e)
+            | X::ToOption(e) | X::OrDefault(e) | X::AndThen(_, _, _, e) | X::AndThenErr(_, e) | X::Map(_, e) | X::ToFatal(e)
             | X::WithSoftErr(_, _, e) | X::MapFatalErr(_, e) | X::Lazy(e) => vec![e],
             X::Seq(v) => v.iter().collect(),
         }
@@ -427,6 +582,89 @@ fn bx_list(p: impl Parser<In, (), Output = Vec<V>, Error = E> + 'static) -> BP {
 }
 fn bx_pair(p: impl Parser<In, (), Output = (V, V), Error = E> + 'static) -> BP {
     p.map(|(a, b)| V::Pair(Box::new(a), Box::new(b))).boxed()
+}
+fn bx_str(p: impl Parser<In, (), Output = String, Error = E> + 'static) -> BP {
+    p.map(V::Str).boxed()
+}
+fn bx_unit(p: impl Parser<In, (), Output = (), Error = E> + 'static) -> BP {
+    p.map(|()| V::Unit).boxed()
+}
+
+/// `$go!(left, right, combiner, O)` builds the real two-sided combinator with a combiner producing `O`; every
+/// combiner struct of `and.rs` is instantiated at its own argument types (the sides are projected first)
+macro_rules! with_cmb {
+    ($c:expr, $l:expr, $r:expr, $go:ident) => {
+        match $c {
+            Cmb::Tuple => bx_pair($go!($l, $r, TupleCombiner, (V, V))),
+            Cmb::Left => bx($go!($l, $r, KeepLeftCombiner, V)),
+            Cmb::Right => bx($go!($l, $r, KeepRightCombiner, V)),
+            Cmb::Ignore => bx_unit($go!($l, $r, IgnoringBothCombiner, ())),
+            Cmb::Swap => bx($go!($l, $r, |a: V, b: V| V::Pair(Box::new(b), Box::new(a)), V)),
+            Cmb::Vec2 => bx_list($go!($l, $r, VecCombiner, Vec<V>)),
+            Cmb::VecCat => {
+                bx_list($go!($l.map(|v: V| as_list(&v)), $r.map(|v: V| as_list(&v)), VecCombiner, Vec<V>))
+            }
+            Cmb::StrCat => {
+                bx_str($go!($l.map(|v: V| as_str(&v)), $r.map(|v: V| as_str(&v)), StringCombiner, String))
+            }
+            Cmb::OptStrCat => {
+                bx_str($go!($l.map(|v: V| as_opt_str(&v)), $r.map(|v: V| as_str(&v)), StringCombiner, String))
+            }
+            Cmb::Chars => {
+                bx_str($go!($l.map(|v: V| as_char(&v)), $r.map(|v: V| as_char(&v)), StringCombiner, String))
+            }
+            Cmb::CharOpt => {
+                bx_str($go!($l.map(|v: V| as_char(&v)), $r.map(|v: V| as_opt_char(&v)), StringCombiner, String))
+            }
+            Cmb::CharVec => {
+                bx_str($go!($l.map(|v: V| as_char(&v)), $r.map(|v: V| as_char_vec(&v)), StringCombiner, String))
+            }
+        }
+    };
+}
+macro_rules! go_and {
+    ($l:expr, $r:expr, $cmb:expr, $o:ty) => {
+        $l.and::<_, _, $o>($r, $cmb)
+    };
+}
+macro_rules! go_then_with {
+    ($l:expr, $r:expr, $cmb:expr, $o:ty) => {
+        $l.then_with_in_context::<_, _, $o>($r.no_context(), $cmb)
+    };
+}
+
+fn build_map(f: MapFn, p: BP) -> BP {
+    match f {
+        MapFn::Unit => bx(p.map_to_unit().map(|()| V::Unit)),
+        MapFn::Wrap => bx(p.map(|v| V::Some(Box::new(v)))),
+        MapFn::Dup => bx(p.map(|v: V| V::Pair(Box::new(v.clone()), Box::new(v)))),
+        // the mapper of `one_char_to_str`
+        MapFn::CharStr => bx_str(p.map(|v: V| as_char(&v)).map(String::from)),
+        MapFn::MkTok(k) => {
+            bx(p.map(move |v: V| Token::new(k, as_text(&v))).map(|t: Token| V::Tok(t.kind(), t.to_text())))
+        }
+        MapFn::TokKind => bx(p.map(|v: V| V::Num(as_tok(&v).kind()))),
+        MapFn::TokText => bx(p.map(|v: V| V::Str(as_tok(&v).as_str().to_string()))),
+        MapFn::TokChar => bx(p.map(|v: V| match as_tok(&v).try_as_single_char() {
+            Some(c) => V::Some(Box::new(sym(c))),
+            None => V::None,
+        })),
+        MapFn::TokShow => bx(p.map(|v: V| V::Str(as_tok(&v).to_string()))),
+    }
+}
+
+/// `many` / `many_allow_none` with each many-combiner struct of `many.rs` at its own element type
+fn build_many_c(m: MCmb, an: bool, p: BP) -> BP {
+    match (m, an) {
+        (MCmb::Vec, false) => bx_list(p.many(VecManyCombiner)),
+        (MCmb::Vec, true) => bx_list(p.many_allow_none(VecManyCombiner)),
+        (MCmb::Str, false) => bx_str(p.map(|v: V| as_char(&v)).many(StringManyCombiner)),
+        (MCmb::Str, true) => bx_str(p.map(|v: V| as_char(&v)).many_allow_none(StringManyCombiner)),
+        (MCmb::TokStr, false) => bx_str(p.map(|v: V| as_tok(&v)).many(StringManyCombiner)),
+        (MCmb::TokStr, true) => bx_str(p.map(|v: V| as_tok(&v)).many_allow_none(StringManyCombiner)),
+        (MCmb::Ignore, false) => bx_unit(p.many(IgnoringManyCombiner)),
+        (MCmb::Ignore, true) => bx_unit(p.many_allow_none(IgnoringManyCombiner)),
+    }
 }
 
 /// harness-only leaf, ill-behaved on purpose: consumes one element, then fails softly without rewinding
@@ -483,10 +721,25 @@ fn build(x: &X) -> BP {
             let ch = chr(*k);
             bx(many_str::<In, E, _>(move |c: &char| *c == ch).map(|s: String| V::List(s.chars().map(sym).collect())))
         }
+        X::OneStr(k) => bx_str(one_char_to_str::<In, E>(chr(*k))),
+        X::ManyStrWith(m, k) => {
+            let ch = chr(*k);
+            let pred = move |c: &char| *c == ch;
+            match m {
+                MCmb::Str => bx_str(many_str_with_combiner::<In, String, E, _, _>(pred, StringManyCombiner)),
+                MCmb::Vec => bx(many_str_with_combiner::<In, Vec<char>, E, _, _>(pred, VecManyCombiner)
+                    .map(|l: Vec<char>| V::List(l.into_iter().map(sym).collect()))),
+                MCmb::Ignore => bx_unit(many_str_with_combiner::<In, (), E, _, _>(pred, IgnoringManyCombiner)),
+                MCmb::TokStr => panic!("many_str_with_combiner over tokens is not typable"),
+            }
+        }
+        X::ManyC(m, an, e) => build_many_c(*m, *an, build(e)),
         X::And(c, l, r) => match c {
+            // the three named methods of the trait
             Cmb::Tuple => bx_pair(build(l).and_tuple(build(r))),
             Cmb::Left => bx(build(l).and_keep_left(build(r))),
             Cmb::Right => bx(build(l).and_keep_right(build(r))),
+            other => with_cmb!(other, build(l), build(r), go_and),
         },
         X::Or2(a, b) => bx(OrParser::new(vec![Box::new(build(a)), Box::new(build(b))])),
         X::Or3(a, b, c) => bx(OrParser::new(vec![Box::new(build(a)), Box::new(build(b)), Box::new(build(c))])),
@@ -575,11 +828,7 @@ fn build(x: &X) -> BP {
             )),
             _ => panic!("seq arity"),
         },
-        X::ThenWith(c, l, r) => match c {
-            Cmb::Tuple => bx_pair(build(l).then_with_in_context(build(r).no_context::<V>(), TupleCombiner)),
-            Cmb::Left => bx(build(l).then_with_in_context(build(r).no_context::<V>(), KeepLeftCombiner)),
-            Cmb::Right => bx(build(l).then_with_in_context(build(r).no_context::<V>(), KeepRightCombiner)),
-        },
+        X::ThenWith(c, l, r) => with_cmb!(*c, build(l), build(r), go_then_with),
         X::AndThen(keep, code, fatal, e) => {
             let (keep, code, fatal) = (*keep, *code, *fatal);
             bx(build(e).and_then(move |v: V| if v == V::Sym(keep) { Ok(v) } else { Err(E { code, fatal }) }))
@@ -598,11 +847,7 @@ fn build(x: &X) -> BP {
                 ErrFn::Replace(c, f) => Err(E { code: c, fatal: f }),
             }))
         }
-        X::Map(f, e) => match f {
-            MapFn::Unit => bx(build(e).map_to_unit().map(|()| V::Unit)),
-            MapFn::Wrap => bx(build(e).map(|v| V::Some(Box::new(v)))),
-            MapFn::Dup => bx(build(e).map(|v: V| V::Pair(Box::new(v.clone()), Box::new(v)))),
-        },
+        X::Map(f, e) => build_map(*f, build(e)),
         X::ToFatal(e) => bx(build(e).to_fatal()),
         X::WithSoftErr(c, f, e) => {
             if *f {
@@ -632,6 +877,7 @@ fn build(x: &X) -> BP {
 fn run_real(p: &mut BP, data: &[u8], start: usize) -> O {
     let mut input = In { data: data.iter().map(|k| chr(*k)).collect(), pos: start };
     TICKS.with(|t| t.set(0));
+    DEPTH.with(|d| d.set(0));
     let r = catch_unwind(AssertUnwindSafe(|| p.parse(&mut input)));
     if r.is_ok() {
         let n = TICKS.with(|t| t.get());
@@ -667,11 +913,58 @@ fn some(v: V) -> V {
 fn pair(a: V, b: V) -> V {
     V::Pair(Box::new(a), Box::new(b))
 }
+/// what the doc comments of the combiner structs say (a second, independent rendering; the model is the third)
 fn comb(c: Cmb, a: V, b: V) -> V {
+    let chars_of = |v: &V| -> String { as_list(v).iter().map(as_char).collect() };
     match c {
         Cmb::Tuple => pair(a, b),
         Cmb::Left => a,
         Cmb::Right => b,
+        Cmb::Ignore => V::Unit,
+        Cmb::Swap => pair(b, a),
+        Cmb::Vec2 => V::List(vec![a, b]),
+        Cmb::VecCat => V::List(as_list(&a).into_iter().chain(as_list(&b)).collect()),
+        Cmb::StrCat => V::Str(format!("{}{}", as_str(&a), as_str(&b))),
+        Cmb::OptStrCat => V::Str(format!("{}{}", as_opt_str(&a).unwrap_or_default(), as_str(&b))),
+        Cmb::Chars => V::Str(format!("{}{}", as_char(&a), as_char(&b))),
+        Cmb::CharOpt => {
+            V::Str(format!("{}{}", as_char(&a), as_opt_char(&b).map(|c| c.to_string()).unwrap_or_default()))
+        }
+        Cmb::CharVec => V::Str(format!("{}{}", as_char(&a), chars_of(&b))),
+    }
+}
+fn text_of_tok(v: &V) -> (u8, String) {
+    match v {
+        V::Tok(k, t) => (*k, t.clone()),
+        x => (0, as_text(x)),
+    }
+}
+fn mapfn_ref(f: MapFn, v: V) -> V {
+    match f {
+        MapFn::Unit => V::Unit,
+        MapFn::Wrap => some(v),
+        MapFn::Dup => pair(v.clone(), v),
+        MapFn::CharStr => V::Str(as_char(&v).to_string()),
+        MapFn::MkTok(k) => V::Tok(k, as_text(&v)),
+        MapFn::TokKind => V::Num(text_of_tok(&v).0),
+        MapFn::TokText | MapFn::TokShow => V::Str(text_of_tok(&v).1),
+        MapFn::TokChar => {
+            let t = text_of_tok(&v).1;
+            let mut it = t.chars();
+            match (it.next(), it.next()) {
+                (Some(c), None) => some(sym(c)),
+                _ => V::None,
+            }
+        }
+    }
+}
+/// the result of a repetition that collected `vals` (empty: `O::default()`)
+fn mfold_ref(m: MCmb, vals: Vec<V>) -> V {
+    match m {
+        MCmb::Vec => V::List(vals),
+        MCmb::Str => V::Str(vals.iter().map(as_char).collect()),
+        MCmb::TokStr => V::Str(vals.iter().map(|v| text_of_tok(v).1).collect::<Vec<_>>().concat()),
+        MCmb::Ignore => V::Unit,
     }
 }
 
@@ -716,6 +1009,42 @@ fn spec(x: &X, data: &[u8], pos: usize, ch: &mut dyn FnMut(usize, usize) -> O) -
                 q += 1;
             }
             if q == pos { O::Soft(0, pos) } else { O::Ok(V::List(vec![V::Sym(*k); q - pos]), q) }
+        }
+        X::OneStr(k) => match data.get(pos) {
+            Some(c) if c == k => O::Ok(V::Str(chr(*k).to_string()), pos + 1),
+            _ => O::Soft(0, pos),
+        },
+        X::ManyStrWith(m, k) => {
+            let mut q = pos;
+            while q < len && data[q] == *k {
+                q += 1;
+            }
+            if q == pos { O::Soft(0, pos) } else { O::Ok(mfold_ref(*m, vec![V::Sym(*k); q - pos]), q) }
+        }
+        // repetition with a many-combiner: the maximal run of successes, folded
+        X::ManyC(m, an, _) => {
+            let mut vals = vec![];
+            let mut q = pos;
+            let mut rounds = 0;
+            loop {
+                match pass!(ch(0, q)) {
+                    O::Ok(v, q2) => {
+                        vals.push(v);
+                        q = q2;
+                    }
+                    O::Soft(e, q2) => {
+                        if vals.is_empty() && !*an {
+                            return O::Soft(e, q2);
+                        }
+                        return O::Ok(mfold_ref(*m, vals), q2);
+                    }
+                    o => return o,
+                }
+                rounds += 1;
+                if rounds > len + 3 {
+                    return O::Hang;
+                }
+            }
         }
         // "If the right side fails with a soft error, parsing of the left side is undone."
         X::And(c, ..) => match pass!(ch(0, pos)) {
@@ -921,14 +1250,7 @@ fn spec(x: &X, data: &[u8], pos: usize, ch: &mut dyn FnMut(usize, usize) -> O) -
             o => o,
         },
         X::Map(f, _) => match pass!(ch(0, pos)) {
-            O::Ok(v, q) => O::Ok(
-                match f {
-                    MapFn::Unit => V::Unit,
-                    MapFn::Wrap => some(v),
-                    MapFn::Dup => pair(v.clone(), v),
-                },
-                q,
-            ),
+            O::Ok(v, q) => O::Ok(mapfn_ref(*f, v), q),
             o => o,
         },
         X::ToFatal(_) => match pass!(ch(0, pos)) {
@@ -1018,6 +1340,45 @@ fn unary_over(e: &X, all_variants: bool) -> Vec<X> {
     v
 }
 
+/// the value layer: every new mapper and many-combiner over `e`
+fn unary_val_over(e: &X) -> Vec<X> {
+    let mut v: Vec<X> = ALL_MAPFN[3..].iter().map(|f| X::Map(*f, b(e))).collect();
+    for m in [MCmb::Vec, MCmb::Str, MCmb::TokStr, MCmb::Ignore] {
+        v.push(X::ManyC(m, false, b(e)));
+        v.push(X::ManyC(m, true, b(e)));
+    }
+    v
+}
+/// the value layer: `and` / `then_with_in_context` with every combiner struct
+fn binary_val_over(l: &X, r: &X) -> Vec<X> {
+    let mut v = vec![];
+    for c in ALL_CMB {
+        if !matches!(c, Cmb::Tuple | Cmb::Left | Cmb::Right) {
+            v.push(X::And(c, b(l), b(r)));
+        }
+        v.push(X::ThenWith(c, b(l), b(r)));
+    }
+    v
+}
+/// sub-parsers whose values have every shape the typed combiners take: chars, strings, options of both, vectors of
+/// chars, tokens, unit; failing ones
+fn val_leaves() -> Vec<X> {
+    let tok = X::Map(MapFn::MkTok(7), b(&X::ManyStrWith(MCmb::Str, 0)));
+    vec![
+        X::One(0),
+        X::Any,
+        X::OneStr(1),
+        X::ManyStrWith(MCmb::Str, 0),
+        X::ToOption(b(&X::One(1))),
+        X::ToOption(b(&X::OneStr(1))),
+        X::Many(true, b(&X::One(1))),
+        tok,
+        X::Pure,
+        X::FailSoft(3),
+        X::FailFatal(4),
+    ]
+}
+
 fn binary_over(l: &X, r: &X, all_variants: bool) -> Vec<X> {
     let mut v = vec![
         X::And(Cmb::Tuple, b(l), b(r)),
@@ -1103,6 +1464,11 @@ fn random_leaf(rng: &mut Rng) -> X {
         9 => X::EatSoft,
         10 => X::Pure,
         11 => X::ManyStr(rng.below(3) as u8),
+        12 => match rng.below(3) {
+            0 => X::OneStr(rng.below(3) as u8),
+            1 => X::ManyStrWith(*rng.pick(&[MCmb::Vec, MCmb::Str, MCmb::Ignore]), rng.below(3) as u8),
+            _ => X::One(rng.below(3) as u8),
+        },
         _ => X::One(rng.below(3) as u8),
     }
 }
@@ -1113,8 +1479,8 @@ fn random_expr(rng: &mut Rng, depth: usize) -> X {
     }
     let d = depth - 1;
     let sub = |rng: &mut Rng| Box::new(random_expr(rng, d));
-    let cmb = |rng: &mut Rng| *rng.pick(&[Cmb::Tuple, Cmb::Left, Cmb::Right]);
-    match rng.below(34) {
+    let cmb = |rng: &mut Rng| *rng.pick(&ALL_CMB);
+    match rng.below(37) {
         0 | 1 => X::And(cmb(rng), sub(rng), sub(rng)),
         2 | 3 => X::Or2(sub(rng), sub(rng)),
         4 => X::Or3(sub(rng), sub(rng), sub(rng)),
@@ -1151,7 +1517,8 @@ fn random_expr(rng: &mut Rng, depth: usize) -> X {
             },
             sub(rng),
         ),
-        24 => X::Map(*rng.pick(&[MapFn::Unit, MapFn::Wrap, MapFn::Dup]), sub(rng)),
+        24 | 34 => X::Map(*rng.pick(&ALL_MAPFN), sub(rng)),
+        35 | 36 => X::ManyC(*rng.pick(&[MCmb::Vec, MCmb::Str, MCmb::TokStr, MCmb::Ignore]), rng.chance(1, 2), sub(rng)),
         25 => X::ToFatal(sub(rng)),
         26 | 27 => X::WithSoftErr(6, rng.chance(1, 2), sub(rng)),
         28 | 29 => X::MapFatalErr(8, sub(rng)),
@@ -1321,15 +1688,7 @@ impl CX {
             CX::And(m, l, r) => format!("(and {} {} {})", cmb_s(*m), l.sx(), r.sx()),
             CX::Or2(a, b) => format!("(or2 {} {})", a.sx(), b.sx()),
             CX::Seq2(a, b) => format!("(seq2 {} {})", a.sx(), b.sx()),
-            CX::Map(f, c) => format!(
-                "(map {} {})",
-                match f {
-                    MapFn::Unit => "unit",
-                    MapFn::Wrap => "wrap",
-                    MapFn::Dup => "dup",
-                },
-                c.sx()
-            ),
+            CX::Map(f, c) => format!("(map {} {})", mapfn_s(*f), c.sx()),
         }
     }
     /// `cLeavesWB` of `Thm/C20CtxWb.lean`: every context-free part is built from well-behaved leaves
@@ -1384,6 +1743,7 @@ fn build_c(x: &CX) -> CP {
             Cmb::Tuple => bxc_pair(build_c(l).then_with_in_context(build_c(r), TupleCombiner)),
             Cmb::Left => bxc(build_c(l).then_with_in_context(build_c(r), KeepLeftCombiner)),
             Cmb::Right => bxc(build_c(l).then_with_in_context(build_c(r), KeepRightCombiner)),
+            _ => panic!("the context layer uses the three basic combiners"),
         },
         CX::ManyCtx(an, c) => bxc_list(ManyCtxParser::new::<In>(
             build_c(c),
@@ -1398,6 +1758,7 @@ fn build_c(x: &CX) -> CP {
             Cmb::Tuple => bxc_pair(build_c(l).and_tuple(build_c(r))),
             Cmb::Left => bxc(build_c(l).and_keep_left(build_c(r))),
             Cmb::Right => bxc(build_c(l).and_keep_right(build_c(r))),
+            _ => panic!("the context layer uses the three basic combiners"),
         },
         CX::Or2(a, b) => bxc(OrParser::new(vec![Box::new(build_c(a)), Box::new(build_c(b))])),
         CX::Seq2(a, b) => bxc(seq2(build_c(a), build_c(b), |x, y| V::List(vec![x, y]))),
@@ -1405,6 +1766,7 @@ fn build_c(x: &CX) -> CP {
             MapFn::Unit => bxc(build_c(c).map_to_unit().map(|()| V::Unit)),
             MapFn::Wrap => bxc(build_c(c).map(|v| V::Some(Box::new(v)))),
             MapFn::Dup => bxc(build_c(c).map(|v: V| V::Pair(Box::new(v.clone()), Box::new(v)))),
+            _ => panic!("the context layer uses the three basic mappers"),
         },
     }
 }
@@ -1659,6 +2021,496 @@ fn process_c(ctx: &mut Ctx, jobs: &[CJob]) {
     }
 }
 
+// ------------------------------------------------------------------------------------------------
+// token.rs: the pure functions of `Token` (model: RbModel.Pc.Token), panics included
+// ------------------------------------------------------------------------------------------------
+
+fn panic_msg(payload: Box<dyn std::any::Any + Send>) -> String {
+    payload
+        .downcast_ref::<String>()
+        .cloned()
+        .or_else(|| payload.downcast_ref::<&str>().map(|s| s.to_string()))
+        .unwrap_or_else(|| "?".into())
+}
+
+fn token_layer(ctx: &mut Ctx) {
+    let kinds: [u8; 4] = [0, 19, 42, 255];
+    let texts = all_inputs(3, 3);
+    let mut reqs = vec![];
+    let mut cases = vec![];
+    for k in kinds {
+        for t in &texts {
+            reqs.push(format!(
+                "(pc.token {} ({}))",
+                k,
+                t.iter().map(|c| c.to_string()).collect::<Vec<_>>().join(" ")
+            ));
+            cases.push((k, t.clone()));
+        }
+    }
+    let answers = ask(&reqs);
+    for (((k, t), ans), req) in cases.iter().zip(answers.iter()).zip(reqs.iter()) {
+        let text: String = t.iter().map(|c| chr(*c)).collect();
+        let enc = |s: &str| s.chars().map(|c| format!(" {}", (c as u8).wrapping_sub(b'a'))).collect::<String>();
+        let real = match catch_unwind(AssertUnwindSafe(|| Token::new(*k, text.clone()))) {
+            Err(p) => {
+                let m = panic_msg(p);
+                if m.contains("Token text cannot be empty") { "panic".to_string() } else { format!("(panic {})", m) }
+            }
+            Ok(tok) => {
+                let tr = match tok.try_as_single_char() {
+                    Some(c) => ((c as u8).wrapping_sub(b'a')).to_string(),
+                    None => "none".into(),
+                };
+                let dm = match catch_unwind(AssertUnwindSafe(|| tok.demand_single_char())) {
+                    Ok(c) => ((c as u8).wrapping_sub(b'a')).to_string(),
+                    Err(p) => {
+                        let m = panic_msg(p);
+                        if m.contains("Token is not single char") { "panic".to_string() } else { format!("(panic {})", m) }
+                    }
+                };
+                // as_str, Display and to_text must agree (all three are "the text")
+                let shown = tok.to_string();
+                let as_str = tok.as_str().to_string();
+                let kind = tok.kind();
+                let owned = tok.to_text();
+                if shown != as_str || as_str != owned {
+                    format!("(texts-differ {} {} {})", shown, as_str, owned)
+                } else {
+                    format!("(tok {} (str{}) {} {})", kind, enc(&owned), tr, dm)
+                }
+            }
+        };
+        ctx.rep.case(Some(format!("token|{}|{}", k, t.len().min(2))));
+        ctx.rep.bump("token.cases");
+        if &real != ans {
+            ctx.rep.fail(Failure {
+                kind: Kind::ModelVsImpl,
+                signature: "model:token".into(),
+                input: req.clone(),
+                implementation: real.clone(),
+                expected: ans.clone(),
+                note: "RbModel.Pc.Token disagrees with token.rs (new / kind / as_str / to_text / Display / try_as_single_char / demand_single_char)".into(),
+            });
+        }
+        // the documented contract, directly
+        let expect_panic = t.is_empty();
+        if expect_panic != (real == "panic") {
+            ctx.rep.fail(Failure {
+                kind: Kind::ImplVsProperty,
+                signature: "token:new-empty".into(),
+                input: req.clone(),
+                implementation: real.clone(),
+                expected: if expect_panic { "panic".into() } else { "a token".into() },
+                note: "Token::new asserts a non-empty text".into(),
+            });
+        }
+    }
+    ctx.rep.exhaustive_parts.push(format!(
+        "token.rs: Token::new / kind / as_str / to_text / Display / try_as_single_char / demand_single_char on all {} (kind in 0/19/42/255) x (texts of length <= 3 over three letters), panics included",
+        cases.len()
+    ));
+}
+
+// ------------------------------------------------------------------------------------------------
+// recursive grammars through the real `lazy` (model: RbModel.PcRec)
+// ------------------------------------------------------------------------------------------------
+
+#[derive(Clone, Debug, PartialEq)]
+enum GX {
+    Lift(X),
+    Ref(usize),
+    And(Cmb, Box<GX>, Box<GX>),
+    Or2(Box<GX>, Box<GX>),
+    OrNoBox(Box<GX>, Box<GX>),
+    Seq2(Box<GX>, Box<GX>),
+    Seq3(Box<GX>, Box<GX>, Box<GX>),
+    Many(bool, Box<GX>),
+    Surround(bool, Box<GX>, Box<GX>, Box<GX>),
+    Delimited(bool, u8, Box<GX>, Box<GX>),
+    Map(MapFn, Box<GX>),
+    ToOption(Box<GX>),
+}
+
+impl GX {
+    fn sx(&self) -> String {
+        match self {
+            GX::Lift(e) => format!("(lift {})", e.sx()),
+            GX::Ref(i) => format!("(ref {})", i),
+            GX::And(c, l, r) => format!("(and {} {} {})", cmb_s(*c), l.sx(), r.sx()),
+            GX::Or2(a, b) => format!("(or2 {} {})", a.sx(), b.sx()),
+            GX::OrNoBox(a, b) => format!("(orNoBox {} {})", a.sx(), b.sx()),
+            GX::Seq2(a, b) => format!("(seq2 {} {})", a.sx(), b.sx()),
+            GX::Seq3(a, b, c) => format!("(seq3 {} {} {})", a.sx(), b.sx(), c.sx()),
+            GX::Many(an, e) => format!("(many {} {})", tf(*an), e.sx()),
+            GX::Surround(md, l, m, r) => format!("(surround {} {} {} {})", tf(*md), l.sx(), m.sx(), r.sx()),
+            GX::Delimited(am, te, e, d) => format!("(delimited {} {} {} {})", tf(*am), te, e.sx(), d.sx()),
+            GX::Map(f, e) => format!("(map {} {})", mapfn_s(*f), e.sx()),
+            GX::ToOption(e) => format!("(toOption {})", e.sx()),
+        }
+    }
+    fn name(&self) -> &'static str {
+        match self {
+            GX::Lift(_) => "lift",
+            GX::Ref(_) => "ref",
+            GX::And(..) => "and",
+            GX::Or2(..) => "or2",
+            GX::OrNoBox(..) => "orNoBox",
+            GX::Seq2(..) => "seq2",
+            GX::Seq3(..) => "seq3",
+            GX::Many(..) => "many",
+            GX::Surround(..) => "surround",
+            GX::Delimited(..) => "delimited",
+            GX::Map(..) => "map",
+            GX::ToOption(_) => "toOption",
+        }
+    }
+    /// `gLeavesWB` of `Thm/C20Rec.lean`
+    fn leaves_wb(&self) -> bool {
+        match self {
+            GX::Lift(e) => e.leaves_wb(),
+            GX::Ref(_) => true,
+            GX::And(_, a, b) | GX::Or2(a, b) | GX::OrNoBox(a, b) | GX::Seq2(a, b) | GX::Delimited(_, _, a, b) => {
+                a.leaves_wb() && b.leaves_wb()
+            }
+            GX::Seq3(a, b, c) | GX::Surround(_, a, b, c) => a.leaves_wb() && b.leaves_wb() && c.leaves_wb(),
+            GX::Many(_, e) | GX::Map(_, e) | GX::ToOption(e) => e.leaves_wb(),
+        }
+    }
+}
+
+/// harness-only wrapper around the parser a `lazy` factory returns: counts the nesting of descents, so that
+/// unbounded recursion ends in the outcome `hang` instead of a stack overflow
+struct DepthGuard(BP);
+impl Parser<In, ()> for DepthGuard {
+    type Output = V;
+    type Error = E;
+    fn parse(&mut self, input: &mut In) -> Result<V, E> {
+        let d = DEPTH.with(|d| {
+            let n = d.get() + 1;
+            d.set(n);
+            n
+        });
+        MAX_DEPTH_SEEN.with(|m| m.set(m.get().max(d.min(DEPTH_BUDGET))));
+        if d > DEPTH_BUDGET {
+            panic!("{}", HANG_MSG);
+        }
+        let r = self.0.parse(input);
+        DEPTH.with(|d| d.set(d.get() - 1));
+        r
+    }
+    fn set_context(&mut self, _ctx: &()) {}
+}
+
+/// every `Ref(i)` is the REAL `lazy(|| <parser of table entry i>)`: the parser of an entry is built when the
+/// descent first reaches it, one level per recursive descent
+fn build_g(tbl: &Rc<Vec<GX>>, g: &GX) -> BP {
+    match g {
+        GX::Lift(e) => build(e),
+        GX::Ref(i) => {
+            let tbl = tbl.clone();
+            let i = *i;
+            bx(lazy::<In, (), _, _>(move || {
+                tick();
+                DepthGuard(build_g(&tbl, &tbl[i]))
+            }))
+        }
+        GX::And(c, l, r) => with_cmb!(*c, build_g(tbl, l), build_g(tbl, r), go_and),
+        GX::Or2(a, b) => bx(OrParser::new(vec![Box::new(build_g(tbl, a)), Box::new(build_g(tbl, b))])),
+        GX::OrNoBox(a, b) => bx(build_g(tbl, a).or(build_g(tbl, b))),
+        GX::Seq2(a, b) => bx(seq2(build_g(tbl, a), build_g(tbl, b), |a, b| V::List(vec![a, b]))),
+        GX::Seq3(a, b, c) => {
+            bx(seq3(build_g(tbl, a), build_g(tbl, b), build_g(tbl, c), |a, b, c| V::List(vec![a, b, c])))
+        }
+        GX::Many(an, e) => {
+            if *an {
+                bx_list(build_g(tbl, e).zero_or_more())
+            } else {
+                bx_list(build_g(tbl, e).one_or_more())
+            }
+        }
+        GX::Surround(md, l, m, r) => bx(surround(
+            build_g(tbl, l),
+            build_g(tbl, m),
+            build_g(tbl, r),
+            if *md { SurroundMode::Mandatory } else { SurroundMode::Optional },
+        )),
+        GX::Delimited(am, te, e, d) => {
+            let te = E { code: *te, fatal: true };
+            if *am {
+                bx(build_g(tbl, e).delimited_by_allow_missing(build_g(tbl, d), te).map(|l: Vec<Option<V>>| {
+                    V::List(
+                        l.into_iter()
+                            .map(|o| match o {
+                                Some(v) => V::Some(Box::new(v)),
+                                None => V::None,
+                            })
+                            .collect(),
+                    )
+                }))
+            } else {
+                bx_list(build_g(tbl, e).delimited_by(build_g(tbl, d), te))
+            }
+        }
+        GX::Map(f, e) => build_map(*f, build_g(tbl, e)),
+        GX::ToOption(e) => bx(build_g(tbl, e).to_option().map(|o| match o {
+            Some(v) => V::Some(Box::new(v)),
+            None => V::None,
+        })),
+    }
+}
+
+fn gb(g: &GX) -> Box<GX> {
+    Box::new(g.clone())
+}
+fn lift1(k: u8) -> GX {
+    GX::Lift(X::One(k))
+}
+
+/// hand-written tables: (name, table, alphabet, maxlen)
+fn fixed_grammars() -> Vec<(&'static str, Vec<GX>, u8, usize)> {
+    let r0 = GX::Ref(0);
+    let r1 = GX::Ref(1);
+    let pure = GX::Lift(X::Pure);
+    vec![
+        // P ::= '(' P ')' | eps   (a = '(', b = ')'); seq3: errors after '(' are fatal
+        ("parens-seq3", vec![GX::Or2(gb(&GX::Seq3(gb(&lift1(0)), gb(&r0), gb(&lift1(1)))), gb(&pure))], 3, 6),
+        // the same with and (undo) instead of seq3: P ::= '(' P ')' | eps, backtracking
+        (
+            "parens-and",
+            vec![GX::Or2(
+                gb(&GX::And(Cmb::Tuple, gb(&lift1(0)), gb(&GX::And(Cmb::Left, gb(&r0), gb(&lift1(1)))))),
+                gb(&pure),
+            )],
+            3,
+            6,
+        ),
+        // P ::= (mandatory surround) '(' P? ')'
+        ("parens-surround", vec![GX::Surround(true, gb(&lift1(0)), gb(&GX::ToOption(gb(&r0))), gb(&lift1(1)))], 3, 6),
+        // E ::= T ('+' E)? ; T ::= 'a' | '(' E ')'   (a, b = '+', c = '(', d = ')'): right-recursive
+        (
+            "expr",
+            vec![
+                GX::And(
+                    Cmb::Tuple,
+                    gb(&r1),
+                    gb(&GX::ToOption(gb(&GX::And(Cmb::Right, gb(&lift1(1)), gb(&r0))))),
+                ),
+                GX::Or2(gb(&lift1(0)), gb(&GX::Surround(true, gb(&lift1(2)), gb(&r0), gb(&lift1(3))))),
+            ],
+            4,
+            5,
+        ),
+        // L ::= '(' (L (',' L)*)? ')'   lists of lists (a = '(', b = ')', c = ',')
+        (
+            "lists",
+            vec![GX::Surround(
+                true,
+                gb(&lift1(0)),
+                gb(&GX::ToOption(gb(&GX::Delimited(false, 9, gb(&r0), gb(&lift1(2)))))),
+                gb(&lift1(1)),
+            )],
+            3,
+            6,
+        ),
+        // A ::= a A | eps, with the boxed and the two-way choice; A ::= a+ through many over a reference
+        ("right-or2", vec![GX::Or2(gb(&GX::And(Cmb::Tuple, gb(&lift1(0)), gb(&r0))), gb(&pure))], 3, 6),
+        ("right-orNoBox", vec![GX::OrNoBox(gb(&GX::And(Cmb::StrCat, gb(&lift1(0)), gb(&r0))), gb(&GX::Lift(X::OneStr(1))))], 3, 6),
+        ("many-ref", vec![GX::Many(true, gb(&r1)), GX::Or2(gb(&lift1(0)), gb(&GX::Seq2(gb(&lift1(1)), gb(&r0))))], 3, 5),
+        // left recursion: A ::= A a ; A ::= A? a ; A ::= B a, B ::= A b | b ; hidden behind a nullable prefix
+        ("left-direct", vec![GX::And(Cmb::Tuple, gb(&r0), gb(&lift1(0)))], 3, 3),
+        ("left-option", vec![GX::And(Cmb::Tuple, gb(&GX::ToOption(gb(&r0))), gb(&lift1(0)))], 3, 3),
+        (
+            "left-mutual",
+            vec![
+                GX::And(Cmb::Tuple, gb(&r1), gb(&lift1(0))),
+                GX::Or2(gb(&GX::And(Cmb::Tuple, gb(&r0), gb(&lift1(1)))), gb(&lift1(1))),
+            ],
+            3,
+            3,
+        ),
+        ("left-hidden", vec![GX::And(Cmb::Tuple, gb(&pure), gb(&r0))], 3, 3),
+        // left recursion only on the second alternative: answers when the first alternative does
+        ("left-second-alt", vec![GX::Or2(gb(&lift1(0)), gb(&GX::And(Cmb::Tuple, gb(&r0), gb(&lift1(1)))))], 3, 4),
+    ]
+}
+
+fn random_gx(rng: &mut Rng, depth: usize, n: usize) -> GX {
+    if depth <= 1 || rng.chance(1, 6) {
+        return if rng.chance(2, 5) {
+            GX::Ref(rng.below(n as u64) as usize)
+        } else {
+            GX::Lift(match rng.below(9) {
+                0 | 1 => X::One(0),
+                2 => X::One(1),
+                3 => X::One(2),
+                4 => X::Any,
+                5 => X::Pure,
+                6 => X::FailSoft(3),
+                7 => X::FailFatal(4),
+                _ => {
+                    if rng.chance(1, 4) { X::EatSoft } else { X::PeekAny }
+                }
+            })
+        };
+    }
+    let d = depth - 1;
+    let sub = |rng: &mut Rng| Box::new(random_gx(rng, d, n));
+    match rng.below(14) {
+        0 | 1 => GX::And(*rng.pick(&ALL_CMB), sub(rng), sub(rng)),
+        2 | 3 => GX::Or2(sub(rng), sub(rng)),
+        4 => GX::OrNoBox(sub(rng), sub(rng)),
+        5 => GX::Seq2(sub(rng), sub(rng)),
+        6 => GX::Seq3(sub(rng), sub(rng), sub(rng)),
+        7 | 8 => GX::Many(rng.chance(1, 2), sub(rng)),
+        9 => GX::Surround(rng.chance(1, 2), sub(rng), sub(rng), sub(rng)),
+        10 => GX::Delimited(rng.chance(1, 2), 9, sub(rng), sub(rng)),
+        11 => GX::Map(*rng.pick(&ALL_MAPFN), sub(rng)),
+        _ => GX::ToOption(sub(rng)),
+    }
+}
+
+fn grammar_layer(ctx: &mut Ctx, rng: &mut Rng, thorough: bool) {
+    struct GJob {
+        name: String,
+        tbl: Vec<GX>,
+        k: u8,
+        maxlen: usize,
+        start: usize,
+    }
+    let mut jobs: Vec<GJob> = vec![];
+    for (name, tbl, k, maxlen) in fixed_grammars() {
+        jobs.push(GJob { name: name.to_string(), tbl: tbl.clone(), k, maxlen, start: 0 });
+        jobs.push(GJob { name: name.to_string(), tbl, k, maxlen: maxlen.min(4), start: 1 });
+    }
+    let n_fixed = jobs.len();
+    let n_rnd = if thorough { 6000 } else { 1200 };
+    for i in 0..n_rnd {
+        let n = 1 + rng.below(3) as usize;
+        let tbl: Vec<GX> = (0..n).map(|_| random_gx(rng, 3, n)).collect();
+        jobs.push(GJob { name: "rnd".into(), tbl, k: 3, maxlen: if thorough { 5 } else { 4 }, start: i % 2 });
+    }
+    for chunk in jobs.chunks(200) {
+        let reqs: Vec<String> = chunk
+            .iter()
+            .map(|j| {
+                format!(
+                    "(pcg.runall ({}) (ref 0) {} {} {})",
+                    j.tbl.iter().map(|g| g.sx()).collect::<Vec<_>>().join(" "),
+                    j.k,
+                    j.maxlen,
+                    j.start
+                )
+            })
+            .collect();
+        let answers = ask(&reqs);
+        for ((j, ans), req) in chunk.iter().zip(answers.iter()).zip(reqs.iter()) {
+            let inputs = all_inputs(j.k, j.maxlen);
+            let model: Vec<&str> = match split_top(ans) {
+                Some(v) if v.len() == inputs.len() => v,
+                _ => {
+                    ctx.rep.fail(Failure {
+                        kind: Kind::ModelVsImpl,
+                        signature: "driver:bad-answer".into(),
+                        input: req.clone(),
+                        implementation: "-".into(),
+                        expected: ans.chars().take(200).collect(),
+                        note: "the driver did not answer one result per input".into(),
+                    });
+                    continue;
+                }
+            };
+            let tbl = Rc::new(j.tbl.clone());
+            let start_g = GX::Ref(0);
+            let wb_expected = j.tbl.iter().all(|g| g.leaves_wb());
+            let mut top = build_g(&tbl, &start_g);
+            ctx.rep.bump(&format!("rec.table.{}", j.name));
+            ctx.rep.bump(&format!("rec.entries{}", j.tbl.len()));
+            ctx.rep.bump(&format!("rec.top.{}", j.tbl[0].name()));
+            ctx.rep.bump(if wb_expected { "rec.gLeavesWB" } else { "rec.ill-behaved-part" });
+            for (idx, data) in inputs.iter().enumerate() {
+                if j.start > data.len() {
+                    continue;
+                }
+                // the state of a `lazy` is the parser it built: a fresh one per run keeps the descent count exact
+                let got = run_real(&mut top, data, j.start);
+                if matches!(got, O::Hang | O::Panic(_)) {
+                    top = build_g(&tbl, &start_g);
+                }
+                let got_s = got.canon();
+                let end = match &got {
+                    O::Ok(_, q) | O::Soft(_, q) | O::Fatal(_, q) => *q as i64,
+                    _ => -1,
+                };
+                let tbl_s = j.tbl.iter().map(|g| g.sx()).collect::<Vec<_>>().join(" ");
+                ctx.rep.case(Some(format!("G|{}|{}|{}|{}", tbl_s, j.start, got.kind(), end)));
+                ctx.rep.bump(&format!("rec.outcome.{}", got.kind()));
+                let case_input = format!("table=({}) start-expr=(ref 0) input={:?} start={}", tbl_s, data, j.start);
+                if model[idx] != got_s {
+                    ctx.rep.fail(Failure {
+                        kind: Kind::ModelVsImpl,
+                        signature: format!("modelrec:{}", j.tbl[0].name()),
+                        input: case_input.clone(),
+                        implementation: got_s.clone(),
+                        expected: model[idx].to_string(),
+                        note: "RbModel.PcRec.runG (descent fuel driverFuel) disagrees with the recursive parser built with the real lazy".into(),
+                    });
+                }
+                if let O::Ok(_, q) | O::Soft(_, q) | O::Fatal(_, q) = &got {
+                    let mut violate = |sig: String, expected: String, note: &str| {
+                        ctx.rep.fail(Failure {
+                            kind: Kind::ImplVsProperty,
+                            signature: sig,
+                            input: case_input.clone(),
+                            implementation: got_s.clone(),
+                            expected,
+                            note: note.into(),
+                        });
+                    };
+                    if *q > data.len() || *q < j.start {
+                        violate(
+                            format!("reccontract:position:{}", j.tbl[0].name()),
+                            format!("{} <= position <= {}", j.start, data.len()),
+                            "a parse never moves the position backwards or past the end (theorem runG_mono)",
+                        );
+                    }
+                    if wb_expected && matches!(got, O::Soft(..)) && *q != j.start {
+                        violate(
+                            format!("reccontract:soft-not-restored:{}", j.tbl[0].name()),
+                            format!("soft failure at position {}", j.start),
+                            "a soft failure leaves the input where it started, through lazy recursion (theorem runG_wb)",
+                        );
+                    }
+                }
+                if let O::Panic(m) = &got {
+                    ctx.rep.fail(Failure {
+                        kind: Kind::ImplVsProperty,
+                        signature: format!("recpanic:{}", j.tbl[0].name()),
+                        input: case_input.clone(),
+                        implementation: got_s.clone(),
+                        expected: "no panic".into(),
+                        note: format!("the library panicked: {}", m),
+                    });
+                }
+                if idx == 30 && j.name != "rnd" && j.start == 0 {
+                    ctx.rep.sample(J::s(format!("grammar {} on {:?} -> {}", j.name, data, got_s)));
+                }
+            }
+        }
+    }
+    ctx.rep.exhaustive_parts.push(format!(
+        "recursive grammars through the real lazy: {} hand-written tables (nested parentheses x3, a right-recursive expression grammar over 4 letters, lists of lists, right recursion x2, many over a reference, five left-recursive ones) x all inputs up to length 6 (expression grammar: 1365 inputs of length <= 5 over 4 letters) from positions 0 and 1",
+        n_fixed / 2
+    ));
+    ctx.rep.notes.push(format!(
+        "recursive grammars: {} seeded random tables of 1-3 entries (depth <= 3, references to random entries) x all inputs of length <= {}; unbounded recursion of the real parser is observed as `more than {} nested lazy descents` (deepest terminating run: {})",
+        n_rnd,
+        if thorough { 5 } else { 4 },
+        DEPTH_BUDGET,
+        MAX_DEPTH_SEEN.with(|m| m.get())
+    ));
+}
+
 fn check_job(ctx: &mut Ctx, j: &Job, answer: &str) {
     let x = &j.x;
     let xs = x.sx();
@@ -1809,6 +2661,11 @@ fn main() {
          <= 4 from position 1; [d3r] EVERY depth-3 expression of a reduced grammar (4 leaves, one variant per unary/binary \
          combinator) x every input of length <= 3 (quick: a seeded sample of them; thorough: all, length <= 4); [rnd] seeded random \
          expressions of depth 3, 4 (thorough: up to 5) x every input of length <= 5 (thorough: 6) from positions 0 and 1. \
+         [val] the value-combining layer: every new mapper / many-combiner over leaves and value-shaped sub-parsers, `and` / \
+         `then_with_in_context` with each of the 12 combiners over all pairs of 11 value-shaped sub-parsers x every input of \
+         length <= 5 (values compared); [tok] token.rs on 4 kinds x all texts of length <= 3, panics included; [rec] recursive \
+         grammars built with the real `lazy` (13 hand-written tables, seeded random tables of 1-3 entries) x every input up to \
+         length 6 / 4, model RbModel.PcRec. \
          class = (expression, start, outcome kind, end position); a leaf on the empty input is trivial.",
     );
     let thorough = rep.is_thorough();
@@ -1817,6 +2674,10 @@ fn main() {
     // ---- layer d2: bounded-exhaustive ---------------------------------------------------------
     let mut d2: Vec<X> = leaves_full();
     d2.extend([X::One(2), X::OneOf(0b001), X::OneOf(0b111), X::ManyStr(1)]);
+    d2.extend([X::OneStr(0), X::OneStr(2)]);
+    for m in [MCmb::Vec, MCmb::Str, MCmb::Ignore] {
+        d2.extend([X::ManyStrWith(m, 0), X::ManyStrWith(m, 1)]);
+    }
     d2.extend(depth2_all());
     // seq4..seq6 are the same macro as seq2/seq3: a targeted set over the core leaves in every position
     let core = leaves_core();
@@ -1841,6 +2702,34 @@ fn main() {
         "all {} parser expressions of depth <= 2 (every constructor/variant; ternaries over 6 core leaves; seq4-6 targeted) x all 1093 inputs of length <= 6 over 3 letters from position 0, and all 121 inputs of length <= 4 from position 1",
         n_d2
     ));
+
+    // ---- layer val: the value-combining layer ------------------------------------------------------
+    let vl = val_leaves();
+    let mut val: Vec<X> = vec![];
+    for e in &vl {
+        val.extend(unary_val_over(e));
+    }
+    for e in &leaves_full() {
+        val.extend(unary_val_over(e));
+    }
+    for l in &vl {
+        for r in &vl {
+            val.extend(binary_val_over(l, r));
+        }
+    }
+    let n_val = val.len();
+    let mut jobs: Vec<Job> = vec![];
+    for x in val {
+        jobs.push(Job { x: x.clone(), maxlen: 5, start: 0, layer: "val" });
+        jobs.push(Job { x, maxlen: 3, start: 1, layer: "val" });
+    }
+    process(&mut ctx, &jobs);
+    ctx.rep.exhaustive_parts.push(format!(
+        "value layer: all {} expressions `new mapper (charStr, mkTok, tokKind, tokText, tokChar, tokShow) or many-combiner (Vec, String over chars, String over tokens, ignoring; many / many_allow_none) over a leaf or a value-shaped sub-parser` and `and / then_with_in_context with each of the 12 combiners (tuple, keep-left, keep-right, ignoring, closure, VecCombiner x2, StringCombiner x5) over two of 11 value-shaped sub-parsers` x all 364 inputs of length <= 5 from position 0 and all 40 of length <= 3 from position 1; values compared",
+        n_val
+    ));
+    token_layer(&mut ctx);
+    grammar_layer(&mut ctx, &mut rng, thorough);
 
     // ---- layer d3r: depth 3 over a reduced grammar ----------------------------------------------
     let base = depth_le2_reduced();
